@@ -2,7 +2,7 @@
 #include "ipc_world.h"
 
 #define NCL 2
-static int transport, cdepth, sactions_max, nclients, free_cost;
+static int transport, cdepth, sactions_max, nclients, free_cost, hs_deaths;
 enum { ST_NONE, ST_ACCEPTED, ST_CREATED, ST_CLOSED, ST_DESTROYED };
 struct conn { qb_ipcs_connection_t *c; int st, msgs, closed_calls, closed_retries_left, last_closed_ret, app_refs, destroyed_calls; };
 #define MAXCONN 8
@@ -123,7 +123,7 @@ static void server_action(const char *where, qb_ipcs_connection_t *self)
 		}
 		vp_log("  S[%s]: iterated %d connections", where, cnt);
 		break; }
-	case A_RATE: qb_ipcs_request_rate_limit(SV, QB_IPCS_RATE_FAST); qb_ipcs_request_rate_limit(SV, QB_IPCS_RATE_NORMAL); vp_log("  S[%s]: rate_limit FAST, NORMAL", where); break;
+	case A_RATE: qb_ipcs_request_rate_limit(SV, QB_IPCS_RATE_OFF); qb_ipcs_request_rate_limit(SV, QB_IPCS_RATE_NORMAL); vp_log("  S[%s]: rate_limit OFF (flow control on for every listed connection), NORMAL", where); break;
 	default:
 		vp_log("  S[%s]: qb_ipcs_destroy", where);
 		qb_ipcs_destroy(SV); service_destroyed = 1;
@@ -145,13 +145,11 @@ static void server_turn(void)
 }
 
 static int done_count;
-/* the last client to finish its script lets the server settle and ends the run (harness logic, no libqb calls) */
-static void finish_script(int id)
+/* once every client script is over (or its client was killed) the server settles and the run ends (harness logic, no libqb calls) */
+static void finishing(void)
 {
 	struct timespec ts = { 0, 200000000 };
 	int i;
-	(void)id;
-	if (++done_count < nclients) return;
 	/* what the scripts left queued is still dispatched with the application free to act in the callbacks */
 	nanosleep(&ts, NULL);
 	W_free_choices = 0;
@@ -161,6 +159,10 @@ static void finish_script(int id)
 	nanosleep(&ts, NULL); nanosleep(&ts, NULL);
 	W_stop_server = 1;
 }
+static void finish_script(int id) { (void)id; if (++done_count >= nclients) finishing(); }
+static void finisher_main(void *arg) { (void)arg; finishing(); }
+/* a client killed in the middle of a call cannot finish anything itself */
+static void on_death(int co) { w_close_fds_of(co); if (++done_count >= nclients) vp_co_spawn(finisher_main, NULL, "finisher"); }
 
 static void client_main(void *arg)
 {
@@ -170,11 +172,24 @@ static void client_main(void *arg)
 		int c;
 		vp_yield_free("client op boundary");
 		if (!CC[id]) {
-			c = vp_choose(2, "client op (unconnected)");
+			c = vp_choose(2 + hs_deaths, "client op (unconnected)");
 			if (c == 0) {
 				CC[id] = qb_ipcc_connect(svc_name, 12400);
 				vp_log("  C%d: connect = %s", id, CC[id] ? "ok" : strerror(errno));
-			} else break;
+			} else if (c == 1) break;
+			else {
+				/* the client is killed in the middle of the handshake: just before the J-th wrapped call the server makes from now on */
+				vp_log("  C%d: connect, to be killed just before the server's call #%d from now", id, c - 1);
+				c_dead[id] = 1;
+				w_hit_arm(vp_co_self(), W_server_co, c - 1);
+				CC[id] = qb_ipcc_connect(svc_name, 12400);
+				/* the handshake was over before that moment: dies now */
+				W_hit_done = 1;
+				vp_log("  C%d: connect = %s, dies", id, CC[id] ? "ok" : strerror(errno));
+				w_close_fds_of(vp_co_self());
+				finish_script(id);
+				return;
+			}
 		} else {
 			c = vp_choose(3, "client op");
 			if (c == 0) {
@@ -215,6 +230,7 @@ static void run(void)
 	W_server_co = vp_co_spawn(server_main, NULL, "server");
 	w_adopt_main_fds(W_server_co);        /* the service was set up in the main context: those descriptors are the server's */
 	for (i = 0; i < nclients; i++) c_co[i] = vp_co_spawn(client_main, (void *)(intptr_t)i, i ? "client1" : "client0");
+	W_on_death = on_death;
 	if (vp_co_run()) { vp_pruned(); return; }
 	if (!service_destroyed) { qb_ipcs_destroy(SV); service_destroyed = 1; }
 	/* let the retries of closed (queued jobs) run, then the application drops the references it still holds */
@@ -246,6 +262,7 @@ static void init(void)
 	sactions_max = (int)vp_param("server_actions", 1, 2);
 	nclients = (int)vp_param("clients", 1, 2);
 	free_cost = (int)vp_param("voluntary_switch_costs", 0, 0);
+	hs_deaths = (int)vp_param("handshake_death_points", 0, 0);
 }
 
 int main(int argc, char **argv)
